@@ -867,6 +867,65 @@ def rule_r13(facts, col, rule_id="C08.R13"):
                 col.ok(rule_id, key, body.where(bb), "every non-error path from this write (%s) commits the window" % nm)
 
 
+FRAME_ADAPTORS = {"chunks_exact_mut", "par_chunks_exact_mut", "chunks_exact", "par_chunks_exact", "as_chunks_mut", "as_chunks"}
+
+
+def _slice_of_write_window(e):
+    """e IS (a sub-range of / a reference to) the slice of a write window: the write_buf() call it comes from, else None"""
+    p = peel(e)
+    n = 0
+    while p is not None and n < 10:
+        n += 1
+        if p.k in ("ref", "deref"):
+            p = peel(p.a)
+            continue
+        if p.k == "call" and p.q == WSLICE and p.args:
+            return _wb_of(p.args[0])
+        if p.k == "call" and p.args and (p.q or "").split("::")[-1] in ("index", "index_mut", "deref", "deref_mut", "as_mut", "as_mut_slice", "split_at_mut"):
+            p = peel(p.args[0])
+            continue
+        return None
+    return None
+
+
+def rule_r14(facts, col, rule_id="C08.R14"):
+    """whole frames only: where work() processes a write window in frames of c samples (`o.slice().chunks_exact_mut(c)`, also
+    the rayon form), the count it commits on that window - and what it consumes for it - is established a multiple of c
+    (`x - x % c`, `k * c`, a min of multiples, a dominating `% c == 0`).  chunks_exact skips a trailing partial frame: committed
+    with the rest, it reaches the reader untransformed, and every later frame is cut at the wrong offset - only when the
+    output happens to be the limiting side, i.e. depending on chunking."""
+    for body0 in facts.impl_bodies(BLOCK_TRAIT, "work"):
+        if body0.from_derive:
+            continue
+        body = effects.work_view(facts, body0, methods=True)
+        frames = []
+        for bb, t in body.calls():
+            if t["f"].get("name") in FRAME_ADAPTORS and len(t["args"]) >= 2:
+                w = _slice_of_write_window(body.operand_expr(t["args"][0]))
+                if w is not None:
+                    frames.append((bb, w, t["args"][1]))
+        k = 0
+        for fbb, w, cop in frames:
+            c = body.operand_expr(cop)
+            for pbb, pt in body.calls_to(effects.PRODUCE):
+                if _wb_of(body.operand_expr(pt["args"][0])) != w or len(pt["args"]) < 2:
+                    continue
+                key = "%s:frames#%d" % (body0.q, k)
+                k += 1
+                n = body.operand_expr(pt["args"][1])
+                from ..common import _expand_deep
+                n2, _ch = _expand_deep(facts, n)       # `whole_blocks(min(..), size)`: a small pure helper doing the rounding
+                if multiple_of(body, pbb, n, c) or (_ch and multiple_of(body, pbb, n2, c)):
+                    col.ok(rule_id, key, body.where(pbb), "committed count established a multiple of the frame size")
+                else:
+                    col.bad(rule_id, key, body.where(pbb),
+                            "the write window is processed in whole frames of %s samples (%s) but the count committed here is not established "
+                            "a multiple of that: when the limiting side is not frame-aligned a partial frame is committed untransformed and "
+                            "every later frame is cut at the wrong offset" % (show(peel(c, through_try=False))[:30], body.where(fbb)), {})
+        if not frames:
+            continue
+
+
 def from_logging(t):
     sp = t.get("sp") or {}
     return any(x.startswith(("log::", "debug!", "trace!", "info!", "warn!", "error!", "format_args!", "eprintln!", "println!")) or "log" in x
@@ -885,6 +944,7 @@ rule_r8 = effects.view_fallback(rule_r8)
 rule_r9 = effects.view_fallback(rule_r9)
 rule_r10 = effects.view_fallback(rule_r10)
 rule_r13 = effects.view_fallback(rule_r13)
+rule_r14 = effects.view_fallback(rule_r14)
 
 def run(ctx):
     facts = ctx.facts("default")
@@ -907,6 +967,8 @@ def run(ctx):
     ctx.floor("C08.R10", 10, "hand-written work() bodies that consume part of a window")
     rule_r11(facts, ctx)
     ctx.floor("C08.R11", 25, "output commitments (produce/push) in hand-written work() bodies of blocks with an input stream")
+    rule_r14(facts, ctx)
+    ctx.floor("C08.R14", 1, "write windows processed in frames (FftStream: 2 adaptor sites, 1 commit)")
     rule_r13(facts, ctx)
     ctx.floor("C08.R13", 12, "writes through BufferWriter::slice() in hand-written work() bodies (19 today)")
     rule_r12(facts, ctx)
